@@ -80,10 +80,16 @@ def run(tier, replay=None):
     core.proof_coverage(chk, lres, THM)
     ba = core.build("asan", harness=["h_conc"], extra_defs="-fno-sanitize=alignment", tag="noalign")
     bt = core.build("tsan", harness=["h_conc"])
+    # small-limit library (as C10/C11/C15 build it) for the too-many-matches parking scenario, ASan and TSan
+    bm = core.build("asan", harness=["h_conc"], extra_defs="-fno-sanitize=alignment -DYR_MAX_STRING_MATCHES=10", tag="m10")
+    btm = core.build("tsan", harness=["h_conc"], extra_defs="-DYR_MAX_STRING_MATCHES=10", tag="m10")
     known = core.known_findings("C09")
     r = core.rng("C09")
     plan = [("asan", ba["h_conc"], gen_cases(r, tier, "asan"), {}),
             ("tsan", bt["h_conc"], gen_cases(r, tier, "tsan"), {"TSAN_OPTIONS": "halt_on_error=0:exitcode=66:second_deadlock_stack=1:report_signal_unsafe=1"})]
+    pcases = ["p%d P %d %s" % (k, k, "protect" if k % 2 == 0 else "noprotect") for k in range(4 if tier == "quick" else 40)]
+    plan += [("asan-m10", bm["h_conc"], pcases, {}),
+             ("tsan-m10", btm["h_conc"], pcases[:2] if tier == "quick" else pcases[:10], {"TSAN_OPTIONS": "halt_on_error=0:exitcode=66:second_deadlock_stack=1:report_signal_unsafe=1"})]
     if replay:
         plan = [p for p in plan if p[0] == replay.get("flavour", "asan")]
         plan = [(p[0], p[1], [replay["case"]], p[3]) for p in plan]
@@ -91,7 +97,7 @@ def run(tier, replay=None):
     hist, rcs, kinds = collections.Counter(), collections.Counter(), collections.Counter()
     nscans, nontrivial, ro_cases, samples = 0, set(), 0, []
     from concurrent.futures import ThreadPoolExecutor
-    with ThreadPoolExecutor(2) as ex:
+    with ThreadPoolExecutor(4) as ex:
         futs = [(fl, cases, ex.submit(run_flavour, binp, os.path.join(core.OUT, "C09", "work-" + fl), cases, env)) for fl, binp, cases, env in plan]
         results = [(fl, cases, f.result()) for fl, cases, f in futs]
     for fl, cases, (out, rc, err) in results:
@@ -104,6 +110,24 @@ def run(tier, replay=None):
                 if f.get("finalize") != "OK":
                     chk.violation("finalize_%s.json" % fl, {"kind": "library-lifetime", "engine": "conc", "harness": "h_conc", "flavour": fl, "cases": cases,
                                                             "implementation": l, "model_spec": "library_alive_iff_referenced: the last yr_finalize finds the library alive and returns ERROR_SUCCESS"})
+                    found = True
+                continue
+            if " P " in l[:len(cid) + 3]:
+                hist["%s:too-many-matches-parking" % fl] += 1
+                nscans += 4
+                if f.get("too_many", "0") == "0" or f.get("parked") != "1":
+                    hist["%s:parking-scenario-not-reached" % fl] += 1      # the build does not have the small limit: nothing to compare
+                    continue
+                nontrivial.add(byid.get(cid, cid).split(" ", 1)[1])
+                bad = []
+                if f.get("mismatch") != "0":
+                    bad.append("noninterference: while another thread's scan had a string temporarily disabled (too many matches, callback answered CONTINUE), "
+                               "this thread's scan gave %s instead of %s (rc/callbacks/trace hash)" % (f.get("b_concurrent"), f.get("b_alone")))
+                if f.get("rules_hash") != "same":
+                    bad.append("rules_immutable: the rule arena changed during scans")
+                if bad:
+                    chk.violation("parking_%s_%s.json" % (fl, cid), {"kind": "concurrent-scan-differs", "engine": "conc", "harness": "h_conc", "flavour": fl, "case": byid.get(cid),
+                                                                     "implementation": l, "model_spec": "; ".join(bad)})
                     found = True
                 continue
             if " L " in l[:len(cid) + 3]:
@@ -145,6 +169,8 @@ def run(tier, replay=None):
                 problems.append("rules_immutable: the rule arena changed during scans")
             if f["handler_inside_bad"] != "0":
                 problems.append("handler_installed_iff_count_pos: %s scan(s) ran with the application's SIGBUS handler still installed" % f["handler_inside_bad"])
+            if f.get("fd_bad", "0") != "0":
+                problems.append("a thread's own file descriptor was closed or replaced by yr_*_scan_fd (%s check(s) failed: fstat / size / close after the scan)" % f["fd_bad"])
             if f["handler_outside_bad"] != "0":
                 problems.append("old_handler_restored_at_zero: the application's SIGBUS handler was not in place after all scans returned")
             if problems:
@@ -154,7 +180,7 @@ def run(tier, replay=None):
         missing = [c for c in cases if c.split(" ", 1)[0] not in answered]
         # leaks reported by LeakSanitizer at exit (exit code 99 with every case answered): listed findings are matched by the libyara function that allocated
         leak_known = False
-        if fl == "asan" and rc == 99 and not missing and "LeakSanitizer" in err:
+        if fl.startswith("asan") and rc == 99 and not missing and "LeakSanitizer" in err:
             allocs = []
             for blk in re.split(r"\n(?=(?:Direct|Indirect) leak of)", err):
                 if not blk.startswith(("Direct", "Indirect")):
@@ -169,7 +195,7 @@ def run(tier, replay=None):
                 leak_known = True
                 chk.known(kl[0], "%s LeakSanitizer: %d leaked block group(s) allocated in %s by scans that ended with a memory fault" %
                           (kl[0]["id"], len(allocs), "/".join(sorted({a[0] for a in allocs}))))
-        reports = tsan_reports(err) if fl == "tsan" else []
+        reports = tsan_reports(err) if fl.startswith("tsan") else []
         bysig = collections.defaultdict(list)
         for kind, fns, blk in reports:
             bysig[(kind, fns)].append(blk)
@@ -181,11 +207,11 @@ def run(tier, replay=None):
                 chk.known(kf[0], "%s ThreadSanitizer %s in %s (%d report(s))" % (kf[0]["id"], kind, "/".join(fns), len(blks)))
             else:
                 n += 1
-                chk.violation("tsan_%d.json" % n, {"kind": "thread-sanitizer-report", "engine": "conc", "harness": "h_conc", "flavour": "tsan",
+                chk.violation("tsan_%d.json" % n, {"kind": "thread-sanitizer-report", "engine": "conc", "harness": "h_conc", "flavour": fl,
                                                    "case": cases[0] if len(cases) == 1 else None, "cases": cases, "signature": {"kind": kind, "functions": list(fns)},
                                                    "implementation": blks[0], "model_spec": "no data race on shared state"})
                 found = True
-        if missing or (rc != 0 and not (fl == "tsan" and rc == 66 and reports) and not leak_known):
+        if missing or (rc != 0 and not (fl.startswith("tsan") and rc == 66 and reports) and not leak_known):
             # the process died: with read-only rules a write to the shared rule set is a SEGV with a WRITE access in the sanitizer's report
             wr = "WRITE memory access" in err or "WRITE" in err
             chk.violation("died_%s.json" % fl, {"kind": "write-to-shared-rules" if wr else "harness-died", "engine": "conc", "harness": "h_conc", "flavour": fl,
